@@ -57,8 +57,8 @@ def extract(ctx):
     text, n1 = redirect(text, r'bool\s+sameSet\s*\([^)]*\)\s*\{')
     text, n2 = redirect(text, r'void\s+unionNodes\s*\([^)]*\)\s*\{')
     log['R8 findNode(x) inside sameSet/unionNodes -> h_findNode(this, x) (callee checked against its own contract)'] = n1 + n2
-    if n1 != 2 or n2 != 2:
-        raise ExtractError('expected two findNode calls in each of sameSet and unionNodes')
+    if n1 < 1 or n2 < 1:
+        raise ExtractError('sameSet / unionNodes no longer call findNode')
     # R18: namespace-scope constexpr constants whose initialiser mentions earlier literal constants are folded textually
     # (CBMC initialises C++ constants in alphabetical order)
     lits = dict(re.findall(r'constexpr\s+\w+\s+(\w+)\s*=\s*(\d+[uUlL]*)\s*;', text))
